@@ -12,7 +12,7 @@ from .common import Driver, I
 from .stubs import Obj
 
 RULE = ("land/sea masks: exhaustively all masks of a 3x4 grid (quick: ocean distance 1..2; thorough: 1..3), random masks up to "
-        "14x14 with land fractions 0.1..0.6, fjord-like channels and closed basins, ocean distances 1..4; random depth-first mazes and serpentines of one-cell-wide corridors up to 13x13 (+ open-sea strip) whose sea paths exceed rows+columns; every sea cell as start. "
+        "14x14 with land fractions 0.1..0.6, fjord-like channels and closed basins, ocean distances 1..4; random depth-first mazes and serpentines of one-cell-wide corridors up to 13x13 (+ open-sea strip) whose sea paths exceed rows+columns; every sea cell as start; sub-grid offsets i0 in {0,1,3}, j0 in {0,1,2}. "
         "Non-trivial: mask with at least one land and one sea cell.")
 ASSUMPTIONS = ["scipy generic_filter / binary_dilation are modelled by their documented semantics and checked against the real calls here"]
 SITE = "ladim_plugins/vps/gridforce.py::_compute_fish_velocity"
@@ -107,11 +107,14 @@ def check_mask(ctx, drv, pend, V, G, land, d, exhaustive=False):
     F = object.__new__(G.Forcing)
     F._fish_u = None; F._fish_v = None; F.fish_swim_speed = 0.14; F.use_currents = False
     F.ocean_distance = d * 0.8       # km; dx = 800 m  -> d cells
-    F._grid = Obj(M=1 - land, i0=0, j0=0, dx=np.full(land.shape, 800.0))
+    # the sub-grid offset of the LADiM grid (i0 = j0 = 1 for the real ROMS grid; any offset must be transparent)
+    i0 = ctx.rng.choice([0, 1, 1, 3]); j0 = ctx.rng.choice([0, 1, 1, 2])
+    F._grid = Obj(M=1 - land, i0=i0, j0=j0, dx=np.full(land.shape, 800.0))
     r, c = land.shape
     YY, XX = np.meshgrid(np.arange(r, dtype=float), np.arange(c, dtype=float), indexing="ij")
-    fu, fv = F.fish_velocity(XX.ravel(), YY.ravel())
+    fu, fv = F.fish_velocity(XX.ravel() + i0, YY.ravel() + j0)
     fu = np.sign(fu).reshape(r, c).astype(int); fv = np.sign(fv).reshape(r, c).astype(int)
+    cs = dict(cs, i0=i0, j0=j0)
     for i in range(r):
         for j in range(c):
             n = fi[i, j]
@@ -119,10 +122,18 @@ def check_mask(ctx, drv, pend, V, G, land, d, exhaustive=False):
                 ctx.oracle(fu[i, j] == 0 and fv[i, j] == 0, "C12.follow.ocean_velocity_nonzero", SITE, "velocity not zero on the ocean cell (%d,%d)" % (i, j), cs)
             if n <= 0:
                 continue
-            # one tracker step in grid coordinates: X (column) += u, Y (row) += v
-            a, b = i + fv[i, j], j + fu[i, j]
-            ok = 0 <= a < r and 0 <= b < c and fi[a, b] == n - 1
-            what = "leaves the grid" if not (0 <= a < r and 0 <= b < c) else ("enters land" if fi[a, b] == -2 else "index %d -> %d" % (n, fi[a, b]))
+            def judge(a, b):
+                ok = 0 <= a < r and 0 <= b < c and fi[a, b] == n - 1
+                what = "leaves the grid" if not (0 <= a < r and 0 <= b < c) else ("enters land" if fi[a, b] == -2 else "index %d -> %d" % (n, fi[a, b]))
+                return ok, what
+            # (1) the field read in the orientation the repository's own unit tests pin for ibm.descent
+            #     (v = +1 is "up" = row - 1): must lower the index by one per cell.  A failure here is NOT the known
+            #     finding F-C12a.
+            okp, whatp = judge(i - fv[i, j], j + fu[i, j])
+            ctx.oracle(okp, "C12.follow.not_descending_in_picture_orientation", SITE,
+                       "cell (row %d, col %d), index %d: velocity (u=%d, v=%d) read as (col+u, row-v) %s" % (i, j, n, fu[i, j], fv[i, j], whatp), dict(cs, cell=[i, j]))
+            # (2) one tracker step in grid coordinates: X (column) += u, Y (row) += v  (the property as stated)
+            ok, what = judge(i + fv[i, j], j + fu[i, j])
             ctx.oracle(ok, "C12.follow.not_descending", SITE,
                        "cell (row %d, col %d), index %d: velocity (u=%d, v=%d) %s" % (i, j, n, fu[i, j], fv[i, j], what), dict(cs, cell=[i, j]))
     if drv.available:
